@@ -44,6 +44,7 @@ func cmdVerify(args []string) {
 	timeout := fs.Int("timeout", 10000, "per query timeout ms")
 	keep := fs.String("keep", "", "directory to keep SMT files")
 	verbose := fs.Bool("v", false, "verbose")
+	claimedOnly := fs.Bool("claimed", false, "solve only the claimed obligations")
 	ov := fs.String("ov", "", "overlay: repoRelPath=replacementFile[,..]")
 	fs.Parse(args)
 	overlay := map[string][]byte{}
@@ -84,6 +85,15 @@ func cmdVerify(args []string) {
 		}
 		if r.Unsupported != "" {
 			fmt.Println("UNSUPPORTED", n, ":", r.Unsupported)
+		}
+		if *claimedOnly {
+			var keep []*Obligation
+			for _, ob := range r.Obs {
+				if ob.Claimed {
+					keep = append(keep, ob)
+				}
+			}
+			r.Obs = keep
 		}
 		solveAll(r.Obs, SolveOpts{TimeoutMs: *timeout, Dir: dir})
 		ok, fail := 0, 0
